@@ -776,22 +776,19 @@ Proof. reflexivity. Qed.
 
 Lemma imports_resolve_eq_partial_all j spec conds :
   in_scope_imports j spec = true ->
-  outcome_of_model (imports_resolve spec (parse_top j) conds)
+  outcome_of_model (imports_resolve spec (parse j) conds)
   = coarse (node_imports_resolve spec j conds).
 Proof.
   unfold in_scope_imports. intros H. apply andb_true_iff in H as [H Hkeys].
-  apply andb_true_iff in H as [H Hmix]. apply andb_true_iff in H as [H Hhs0].
+  apply andb_true_iff in H as [H Hhs0].
   apply andb_true_iff in H as [Hmk Hok].
   apply negb_true_iff in Hhs0. unfold shape_hash_slash in Hhs0. apply orb_false_iff in Hhs0 as [Hh Hhs].
-  apply negb_true_iff in Hmix.
   unfold node_imports_resolve. rewrite (norm_id true j Hok).
   assert (Hsl : ends_with_slash spec = false).
   { unfold match_key_ok in Hmk. apply andb_true_iff in Hmk as [Hs _]. apply negb_true_iff in Hs. exact Hs. }
   rewrite Hsl. unfold imports_resolve_spec.
   change (s_ "#") with [ch_hash]. change (s_ "#/") with [ch_hash; ch_slash]. rewrite Hh, Hhs. cbn [orb].
   destruct j as [| t | l | kvs |]; try reflexivity.
-  cbn [shape_imports_top_mixed] in Hmix. apply negb_false_iff in Hmix.
-  unfold parse_top. rewrite Hmix.
   assert (Hp : parse (JObj kvs) = PObj (map pp kvs)
                  (isort_by less (filter (fun e => is_expansion_key (fst e)) (map pp kvs)))).
   { reflexivity. }
@@ -815,7 +812,7 @@ Definition cN := [s_ "node"; s_ "import"].
 Definition model_exports (j : json) (sub : str) : outcome :=
   outcome_of_model (exports_resolve slash_s sub (parse_top j) cN).
 Definition model_imports (j : json) (sp : str) : outcome :=
-  outcome_of_model (imports_resolve sp (parse_top j) cN).
+  outcome_of_model (imports_resolve sp (parse j) cN).
 Definition spec_exports (j : json) (sub : str) : outcome := coarse (node_exports_resolve j sub cN).
 Definition spec_imports (j : json) (sp : str) : outcome := coarse (node_imports_resolve sp j cN).
 
@@ -867,11 +864,13 @@ Lemma fixed_nested_mixed_keys :
   /\ spec_exports w_mixed (s_ "./a") = OResolved (s_ "/x.js")
   /\ in_scope_exports w_mixed (s_ "./a") = true.
 Proof. repeat split; vm_compute; reflexivity. Qed.
+(* the "imports" part of D4 (repaired in /repo by 9a0cc2e): agrees and is in scope *)
 Definition w_imports_mixed : json := JObj [(s_ "#a", JStr (s_ "./a.js")); (s_ "./b", JStr (s_ "./b.js"))].
-Lemma refuted_imports_top_mixed :
-  model_imports w_imports_mixed (s_ "#a") = ORefused ENotExported
-  /\ spec_imports w_imports_mixed (s_ "#a") = OResolved (s_ "/a.js").
-Proof. split; vm_compute; reflexivity. Qed.
+Lemma fixed_imports_top_mixed :
+  model_imports w_imports_mixed (s_ "#a") = OResolved (s_ "/a.js")
+  /\ spec_imports w_imports_mixed (s_ "#a") = OResolved (s_ "/a.js")
+  /\ in_scope_imports w_imports_mixed (s_ "#a") = true.
+Proof. repeat split; vm_compute; reflexivity. Qed.
 Lemma refuted_index_key :
   model_exports w_index (s_ "./a") = OResolved (s_ "/y.js")
   /\ spec_exports w_index (s_ "./a") = ORefused ENotExported.
@@ -903,7 +902,7 @@ Qed.
 Lemma imports_resolve_eq_refuted_all :
   exists j sp conds,
     documented_scope j sp = true /\
-    outcome_of_model (imports_resolve sp (parse_top j) conds)
+    outcome_of_model (imports_resolve sp (parse j) conds)
     <> coarse (node_imports_resolve sp j conds).
 Proof.
   exists w_hash_slash, (s_ "#/a"), cN. split; [reflexivity|].
@@ -966,7 +965,6 @@ Proof.
   unfold in_scope_imports, documented_ok, fragment_ok, no_refuted_shape, match_key_ok.
   rewrite json_ok_split, top_keys_split. cbn [andb].
   destruct (negb (ends_with_slash mk)), (negb (shape_star_specifier mk)), (negb (shape_hash_slash mk)),
-    (negb (shape_imports_top_mixed j)),
     (json_all (target_no_shape true) obj_no_shape j), (json_all fragment_target (fun _ => true) j),
     (top_keys key_documented j), (top_keys (key_no_shape mk) j), (top_keys (key_fragment mk) j); reflexivity.
 Qed.
